@@ -376,6 +376,14 @@ func runDiff(r *vf.Run, groupMode bool) {
 			if q.e.HasOperator() || len(q.gb) > 0 {
 				r.Distinct(fmt.Sprintf("%s|%s|%d|%d", id, q.e.Shape(), len(q.gb), q.e.Nodes()))
 			}
+			if q.id == "q0" && len(ds.ColNames()) > 0 {
+				// one query OBJECT reused for many values (a caller looping over the values of a column): every execution
+				// must answer the expression as it is at that moment
+				rid := id + "/reused-object"
+				if r.Want(rid) {
+					reusedObjectLoop(r, rid, rng, ds, matrix, groupMode)
+				}
+			}
 			if q.id == "q1" && len(ds.Rows) >= 100 {
 				r.Sample("query", map[string]any{"dataset": id, "rows": len(ds.Rows), "specs": specStrings(ds), "expr": q.e.String(), "group_by": fmt.Sprintf("%q", q.gb), "expected_count": want.Count, "expected_groups": len(want.Groups), "expected_error": want.Err})
 			}
@@ -401,4 +409,39 @@ func boundaryOf(n int) int {
 		}
 	}
 	return -1
+}
+
+// reusedObjectLoop executes ONE *updog.Query whose leaf is edited in place between executions.
+func reusedObjectLoop(r *vf.Run, rid string, rng *rand.Rand, ds *gen.Dataset, matrix []cfgIndex, groupMode bool) {
+	cols := ds.ColNames()
+	for _, cfg := range matrix {
+		leaf := &updog.ExprEqual{}
+		other := gen.Leaf(rng, ds, cols)
+		q := &updog.Query{Expr: &updog.ExprOr{Exprs: []updog.Expression{&updog.ExprNot{Expr: leaf}, &updog.ExprAnd{Exprs: []updog.Expression{leaf, other.ToUpdog()}}}}}
+		var gb []string
+		if groupMode {
+			gb = gen.GroupBy(rng, ds, 1, 2000)
+			q.GroupBy = append([]string{}, gb...)
+		}
+		for k := 0; k < 12; k++ {
+			l := gen.Leaf(rng, ds, cols)
+			leaf.Column, leaf.Value = l.Col, l.Val
+			want := oracle.Eval(ds.Rows, ds.Cols, oracle.Or(oracle.Not(l), oracle.And(l, other)), gb)
+			res, err := cfg.idx.Execute(q)
+			r.Eval(1)
+			r.Count("executions_of_a_reused_query_object", 1)
+			var diff string
+			if groupMode {
+				diff = oracle.CompareResult(res, err, want, gb)
+			} else {
+				want.Groups = nil
+				diff = oracle.CompareResult(res, err, want, nil)
+			}
+			if diff != "" {
+				r.Violation(rid, "answer", map[string]any{"config": cfg.name, "difference": diff, "execution": k + 1, "leaf_now": l.String(), "other_operand": other.String(),
+					"explanation": "one query object; its leaf's Column/Value fields are set to a new pair before every execution", "specs": specStrings(ds)})
+				return
+			}
+		}
+	}
 }
